@@ -51,7 +51,8 @@ CONFIGS = {
         "quick": [("p1", "piped", "NoWakers", "S_p1", "M_pp1"),
                   ("p3", "piped", "NoWakers", "S_p3", "M_pp2"),
                   ("p2", "piped", "NoWakers", "S_p2", "M_pp3"),
-                  ("p1far", "piped", "WB_far", "S_p3", "M_pp2")],
+                  ("p1far", "piped", "WB_far", "S_p3", "M_pp2"),
+                  ("p6", "piped", "NoWakers", "S_p6", "M_pp4")],
         "thorough": [("p4", "piped", "NoWakers", "S_p4", "M_pp1"),
                      ("p5", "piped", "NoWakers", "S_p5", "M_pp3")],
     },
@@ -264,6 +265,9 @@ def rand_scripts(rng, kind):
         main.append(["pdrop"])
         if rng.random() < 0.5:
             main.append(["poll"])
+        elif rng.random() < 0.6:
+            # the event loop keeps looking (without waiting) while the worker winds down
+            main += [["trypoll"] for _ in range(rng.randrange(1, 4))]
     return {"kind": "piped", "wakers": [], "threads": [ops], "main": main, "autodrop": True,
             "echo": rng.random() < 0.2}
 
